@@ -190,6 +190,10 @@ static void op_alias(Ctx& c) {
   { Eigen::Matrix<S, G::RepSize, 1> bx = X.coeffs(), by = Y.coeffs(); Eigen::Matrix<S, T::DoF, 1> bt = t.coeffs();
     Eigen::Map<G> mx(bx.data()); Eigen::Map<const G> my(by.data()); Eigen::Map<const T> mt(bt.data());
     alias_impl(view, mx, my, mt);
+    // the complementary storage kinds: read-only view of X, mutable views of Y and t (names suffixed, same canonical values)
+    { AliasLog v2; Eigen::Map<const G> cx(bx.data()); Eigen::Map<G> wy(by.data()); Eigen::Map<T> wt(bt.data());
+      alias_impl(v2, cx, wy, wt);
+      for (size_t i = 0; i < v2.names.size(); ++i) { view.names.push_back(v2.names[i] + " [const X, mutable Y, t]"); view.vals.push_back(v2.vals[i]); view.canon.push_back(v2.canon[i]); } }
     // the compound operators with the right operand a DIFFERENT view object over the SAME buffer (X *= X through views)
     { Eigen::Matrix<S, G::RepSize, 1> bz = X.coeffs(); Eigen::Map<G> mz(bz.data()); Eigen::Map<const G> cz(bz.data()); mz *= cz; view.add("Xview*=constview(same buffer)", mz, X.compose(X)); }
     { Eigen::Matrix<S, G::RepSize, 1> bz = X.coeffs(); Eigen::Map<G> mz(bz.data()), mz2(bz.data()); mz *= mz2; view.add("Xview*=view(same buffer)", mz, X.compose(X)); }
@@ -201,7 +205,7 @@ static void op_alias(Ctx& c) {
     o.key("vals"); std::fputc('[', o.f); for (size_t i = 0; i < L.vals.size(); ++i) { if (i) std::fputc(',', o.f); std::fputc('[', o.f); for (int j = 0; j < L.vals[i].size(); ++j) { if (j) std::fputc(',', o.f); o.bits((double)L.vals[i](j)); } std::fputc(']', o.f); } std::fputc(']', o.f);
     o.key("canon"); std::fputc('[', o.f); for (size_t i = 0; i < L.canon.size(); ++i) { if (i) std::fputc(',', o.f); std::fputc('[', o.f); for (int j = 0; j < L.canon[i].size(); ++j) { if (j) std::fputc(',', o.f); o.bits((double)L.canon[i](j)); } std::fputc(']', o.f); } std::fputc(']', o.f);
     // the view run must also agree with the owning run
-    if (pass) { o.key("own"); std::fputc('[', o.f); for (size_t i = 0; i < own.vals.size(); ++i) { if (i) std::fputc(',', o.f); std::fputc('[', o.f); for (int j = 0; j < own.vals[i].size(); ++j) { if (j) std::fputc(',', o.f); o.bits((double)own.vals[i](j)); } std::fputc(']', o.f); } std::fputc(']', o.f); }
+    if (pass) { o.key("own"); std::fputc('[', o.f); for (size_t i2 = 0; i2 < 2 * own.vals.size(); ++i2) { const size_t i = i2 % own.vals.size(); /* both view runs, in the same order */ if (i2) std::fputc(',', o.f); std::fputc('[', o.f); for (int j = 0; j < own.vals[i].size(); ++j) { if (j) std::fputc(',', o.f); o.bits((double)own.vals[i](j)); } std::fputc(']', o.f); } std::fputc(']', o.f); }
     o.end();
   }
 }
